@@ -103,6 +103,12 @@ class Report:
         if text not in self.trusted:
             self.trusted.append(text)
 
+    def has_new_findings(self):
+        """Is there a finding that is NOT a listed known finding? (A typing failure may be tolerated only then: the run is
+        already decided as a violation; never on the strength of a known finding.)"""
+        known = {k["key"] for k in self._known()}
+        return any(f.key not in known for f in self.findings)
+
     # -- finishing -----------------------------------------------------------------
     def _known(self):
         if not os.path.exists(KNOWN):
